@@ -90,6 +90,13 @@ func exploreFine(env *Env, rep *Report, prop string) int {
 		}
 		a, b := fc.Run(nil), fc.Run(nil)
 		if a.Outcome != b.Outcome || len(a.X.Decisions) != len(b.X.Decisions) {
+			// see exploreConc: a broken oracle in one of two runs of the same schedule is the verdict
+			if vs := append(append([]vsched.Violation{}, a.Violations...), b.Violations...); len(vs) > 0 {
+				for _, v := range vs {
+					rep.violate(v.Sig, "(the default schedule run twice gave two different observations: the outcome depends on state that survives the execution) "+v.Detail, map[string]any{"noreplay": true})
+				}
+				continue
+			}
 			infra("%s %s is not deterministic under replay: %q/%d vs %q/%d", prop, fc.Name, a.Outcome, len(a.X.Decisions), b.Outcome, len(b.X.Decisions))
 		}
 		db := bound
